@@ -11,6 +11,7 @@
 //   opensync b|u <cid> <pre>            spawn OpenStreamSync (pre=1: context already cancelled)
 //   accept b|u <cid> <pre>              spawn AcceptStream
 //   cancel <cid>                        cancel that caller's context
+//   race <cid> b|u <n>                  cancel a blocked OpenStreamSync caller and deliver MAX_STREAMS n at once
 //   stream|rst|sdb|stop|msd <id>        peer frame naming stream <id>
 //   del <id>                            DeleteStream (stream completion)
 //   maxstreams b|u <n>                  MAX_STREAMS through the wire parser, then HandleMaxStreamsFrame
@@ -248,6 +249,24 @@ func (b *bubble) exec(op string) (res string) {
 			return "skip"
 		}
 		c.cancel()
+		res = "ok"
+	case "race":
+		// cancel a blocked OpenStreamSync caller and deliver MAX_STREAMS without waiting in between:
+		// the caller's select may see ctx.Done(), its wake-up token, or both
+		cid := int(vh.Atoi64(f[1]))
+		c, ok := b.callers[cid]
+		b.mu.Lock()
+		fin := ok && c.done
+		b.mu.Unlock()
+		if !ok || fin || c.kind != 'o' || len(f) != 4 {
+			return "skip"
+		}
+		typ := protocol.StreamTypeUni
+		if isBidi(f[2]) {
+			typ = protocol.StreamTypeBidi
+		}
+		c.cancel()
+		b.sm.HandleMaxStreamsFrame(&wire.MaxStreamsFrame{Type: typ, MaxStreamNum: protocol.StreamNum(vh.Atoi64(f[3]))})
 		res = "ok"
 	case "stream", "rst", "sdb", "stop", "msd":
 		frameOp = true
@@ -496,6 +515,13 @@ func (rn *runner) observe(op, res string) {
 				ts.peerLimit = n
 			}
 		}
+	case "race":
+		if head == "ok" {
+			ts := rn.ts[tidx(f[2] == "b")]
+			if n := vh.Atoi64(f[3]); n > ts.peerLimit {
+				ts.peerLimit = n
+			}
+		}
 	case "params":
 		if n := vh.Atoi64(f[1]); n > rn.ts[1].peerLimit {
 			rn.ts[1].peerLimit = n
@@ -717,6 +743,10 @@ func (rn *runner) GenOp(r *vh.Rand, i int) string {
 			}
 			return fmt.Sprintf("accept %s %d %d", tn(bidi), rn.nextCid, pre)
 		case 4:
+			if c, ok := rn.pickWaiting(r, 'o'); ok && r.Chance(35) {
+				ts := rn.ts[tidx(rn.wbidi[c])]
+				return fmt.Sprintf("race %d %s %d", c, tn(rn.wbidi[c]), ts.peerLimit+r.Range(1, 2))
+			}
 			if c, ok := rn.pickWaiting(r, 0); ok && r.Chance(90) {
 				return fmt.Sprintf("cancel %d", c)
 			}
